@@ -233,15 +233,19 @@ def make_spec(mode: str, idx: int, case_seed: int) -> Dict[str, Any]:
     return s
 
 
+# the property quantifies over ALL records: the estimate must not depend on the amplitude scale of the data
+AMPS = [1.0, 1.0, 1e-9, 1.0, 1e6, 1e-12, 1.0, 1e-4]
+
+
 def build_data(s: Dict[str, Any]) -> Tuple[np.ndarray, np.ndarray, Optional[np.ndarray]]:
     """(x, y, xl): the two analysed channels and, for a delay, the longer parent record"""
     r = np.random.default_rng(s["rec_seed"])
     N = s["N"]
     if "d" in s:
         d = s["d"]
-        xl = _an.record(r, N + d, s["kind"])
+        xl = _an.record(r, N + d, s["kind"])     # unit scale: the delay bound's statistical term is calibrated for unit-variance records
         return np.ascontiguousarray(xl[d:d + N]), np.ascontiguousarray(xl[0:N]), xl
-    x = _an.record(r, N, s["kind"])
+    x = _an.record(r, N, s["kind"]) * AMPS[s["rec_seed"] % len(AMPS)]
     return x, s["g"] * x, None
 
 
